@@ -31,7 +31,7 @@ ALL_ACTS = ["define", "del", "rebind", "push", "pop", "clear", "reload", "close"
             "fire", "set", "call", "out"]      # "fail" is not an action: it allows contents whose top level raises
 ALL_FLAGS = ["legacy-stop-before-first-run-leaks", "service-handler-not-repointed", "notify-del-returns-early", "dm-delayed-start-ignores-drop",
              "dm-start-order-arbitrary", "dm-service-owner-is-evaluator-name", "dm-service-multi-arg-rejected",
-             "session-import-module-not-started"]
+             "session-import-module-not-started", "service-bookkeeping-keyed-by-spelling"]
 # deviations repaired in the code under test: their generator masks are lifted (a rejection they explain is a
 # VIOLATION anyway: known_findings.jsonl lists them as fixed)
 LIFTED_MASKS = {"dm-service-multi-arg-rejected"}
@@ -59,9 +59,19 @@ WHAT = {
     "session-import-module-not-started": "a module imported by a Jupyter cell is loaded while the session's auto-start is "
                                          "switched off for the cell: its decorated functions stay stopped (dm: no service, "
                                          "no trigger; legacy: services only) until an unrelated pyscript.reload starts them",
+    "service-bookkeeping-keyed-by-spelling": "reference counts and owners of services are kept per spelling of the name while "
+                                             "HA folds service names: two live declarations that spell one name differently "
+                                             "(pyscript.s1 / pyscript.S1) do not share a count - deleting or redefining one "
+                                             "unregisters the service the other still declares - and a second context takes over "
+                                             "a name another context owns",
     "unexplained": "recording is not a behaviour of the lifecycle model under any combination of the named deviations",
 }
-NODECL = {"st": [], "ev": [], "tt": [], "svc": [], "resp": "none", "sf": "stack"}
+NODECL = {"st": [], "ev": [], "tt": [], "svc": [], "resp": "none", "sf": "stack", "alt": False}
+
+
+def spell(s, alt):
+    """The service name as the script writes it; alt: the other spelling of the same name (first letter's case swapped)."""
+    return s[0].swapcase() + s[1:] if alt else s
 
 
 # ------------------------------------------------------------------------------------------------
@@ -79,7 +89,7 @@ def parse_kv(s):
 
 def decorators(d):
     out = []
-    svc = sorted(d["svc"])
+    svc = [spell(x, d.get("alt")) for x in sorted(d["svc"])]
     if svc:
         if d["sf"] == "args":
             names = [", ".join('"pyscript.%s"' % s for s in svc)]
@@ -130,9 +140,18 @@ def file_src(c, defs, g0, fail=False, im=False):
             + "\n".join(func_src(df["n"], g0 + i, df["d"]) for i, df in enumerate(defs)) + (FAIL_SRC if fail else ""))
 
 
+def norm_decl(d):
+    return d if "alt" in d else dict(d, alt=False)
+
+
 def norm_act(a):
     """Fill in the optional fields of an action (older replay files / generators do not write them)."""
     a = dict(a)
+    if "d" in a:
+        a["d"] = norm_decl(a["d"])
+    for k in ("defs", "mdefs", "d1", "d2"):
+        if k in a:
+            a[k] = [dict(df, d=norm_decl(df["d"])) for df in a[k]]
     if a["a"] == "reload":
         for k, v in (("fail", False), ("im", False), ("mdefs", []), ("fresh", False)):
             a.setdefault(k, v)
@@ -591,6 +610,8 @@ DECL_POOL = [
     {"st": [], "ev": [], "tt": [], "svc": ["S3"], "resp": "none", "sf": "stack"},
     {"st": ["a"], "ev": ["e2"], "tt": [], "svc": ["S3"], "resp": "optional", "sf": "stack"},
     {"st": [], "ev": ["e1"], "tt": ["startup"], "svc": ["S3", "s2"], "resp": "none", "sf": "args"},
+    {"st": [], "ev": [], "tt": [], "svc": ["s1"], "resp": "none", "sf": "stack", "alt": True},
+    {"st": ["b"], "ev": [], "tt": [], "svc": ["S3", "s2"], "resp": "optional", "sf": "stack", "alt": True},
 ]
 def kw(k, t, v):
     return {"k": k, "t": t, "v": v}
@@ -652,6 +673,10 @@ def gen_random(r, nsteps, ctxs, mask):
             d = r.choice(DECL_POOL)
             if fail and "shutdown" in d["tt"]:
                 continue
+            if "service-bookkeeping-keyed-by-spelling" in mask and any(
+                    bool(g["d"].get("alt")) != bool(d.get("alt"))
+                    for s in d["svc"] for g in declared(s, ignore=0) + [dict(df) for df in pending if s in df["d"]["svc"]]):
+                continue                      # no two live declarations that spell one name differently
             if "dm-service-multi-arg-rejected" in mask and d["sf"] == "args" and len(d["svc"]) > 1:
                 continue
             if via == "run" and (d["tt"] or len(d["svc"]) > 1):
@@ -1063,8 +1088,8 @@ def selftest(ctx, accepted_cases, want=24):
 
 # ------------------------------------------------------------------------------------------------
 # directed witnesses of the known deviations (re-executed on every run)
-def D(st=(), ev=(), tt=(), svc=(), resp="none", sf="stack"):
-    return {"st": sorted(st), "ev": sorted(ev), "tt": sorted(tt), "svc": sorted(svc), "resp": resp, "sf": sf}
+def D(st=(), ev=(), tt=(), svc=(), resp="none", sf="stack", alt=False):
+    return {"st": sorted(st), "ev": sorted(ev), "tt": sorted(tt), "svc": sorted(svc), "resp": resp, "sf": sf, "alt": alt}
 
 
 RACE_DECLS = [D(st=["a"], ev=["e1"], svc=["s1"]), D(st=["b"], ev=["e1"], svc=["s1"], resp="optional"),
@@ -1158,7 +1183,7 @@ def witnesses(race=True):
     # started context, by a Jupyter cell, or at the top of a file being loaded - and then lives on its own
     mod = [{"n": "f", "d": D(st=["a", "a.old"], ev=["e1"], tt=["startup"])}, {"n": "g", "d": D(svc=["s2"], resp="optional")}]
     occ = [{"a": "fire", "e": "e1"}, {"a": "set", "x": "a"}, {"a": "call", "s": "s2", "data": "p=1", "rr": True}]
-    for c, via in (("c1", "run"), ("c1", "exec"), ("c2", "run"), ("c3", "run")):
+    for c, via in (("c1", "run"), ("c2", "exec"), ("c3", "run")):
         w.append(("modimp-%s-%s" % (via, c), both, [
             {"a": "import", "c": c, "mdefs": mod, "via": via, "fail": False, "fresh": True, "g": 1}] + occ + [
             {"a": "import", "c": "c1", "mdefs": [], "via": "exec", "fail": False, "fresh": False, "g": 3},
@@ -1208,6 +1233,20 @@ def witnesses(race=True):
         {"a": "reload", "c": "c1", "defs": [], "g": 3}, callS, {"a": "define", "c": "c2", "n": "g", "d": up, "g": 3}, callS,
         {"a": "close", "c": "c2"}, {"a": "push", "c": "c1", "d": up2, "where": "L", "via": "exec", "g": 4},
         {"a": "call", "s": "S3", "data": "-", "rr": True}, {"a": "unload"}]))
+    # one name spelled in two ways by two live declarations (HA folds service names): deletion, redefinition, take-over
+    low, cap = D(svc=["s1"]), D(svc=["s1"], alt=True)
+    call1 = {"a": "call", "s": "s1", "data": "p=1", "rr": False}
+    w.append(("spell-del", both, [{"a": "define", "c": "c1", "n": "f", "d": low, "g": 1}, {"a": "define", "c": "c1", "n": "g", "d": cap, "g": 2},
+                                  call1, {"a": "del", "c": "c1", "n": "g"}, call1]))
+    w.append(("spell-redef", both, [{"a": "define", "c": "c1", "n": "f", "d": low, "g": 1}, {"a": "define", "c": "c1", "n": "f", "d": cap, "g": 2},
+                                    call1]))
+    w.append(("spell-takeover", both, [{"a": "define", "c": "c1", "n": "f", "d": low, "g": 1},
+                                       {"a": "define", "c": "c2", "n": "g", "d": cap, "g": 2}, call1]))
+    # (a name that is only ever spelled the other way is nothing special)
+    w.append(("spell-alone", both, [{"a": "define", "c": "c1", "n": "f", "d": cap, "g": 1}, call1,
+                                    {"a": "define", "c": "c1", "n": "f", "d": cap, "g": 2}, call1,
+                                    {"a": "define", "c": "c2", "n": "g", "d": cap, "g": 3}, {"a": "del", "c": "c1", "n": "f"}, call1,
+                                    {"a": "unload"}]))
     cases = []
     for name, subs, acts, *opt in w:
         for sub in subs:
